@@ -1007,7 +1007,8 @@ def judge_at(col: Collector, tap: AtTap) -> None:
                      f'"{line}": the gateway sent {len(finals)} final result codes: {responses}')
         else:
             col.fail(f'at/final_not_last/{handler}', f'"{line}": responses {responses}')
-        return  # later exchanges may be after-effects
+        # every exchange is judged on its own: the gateway handles a received line synchronously and the
+        # monitor records its responses when they are written, whatever the state of the RFCOMM ledger
 
 
 def exec_hfp(case) -> Collector:
@@ -1230,10 +1231,7 @@ def run_hfp_case(ctx, case, record=True) -> None:
     for cmd in case.get('commands') or []:
         labels.add(f'command:{cmd[0]}')
     for line, _r, _e in getattr(col, 'exchanges', []):
-        ctx.extra.setdefault('at_handlers_seen', [])
-        h = handler_of(line)
-        if h not in ctx.extra['at_handlers_seen']:
-            ctx.extra['at_handlers_seen'].append(h)
+        labels.add(f'at:{handler_of(line)}')
     nontrivial = (hf_mask, ag_mask) not in SUITE_MASKS or bool(case.get('commands'))
     ctx.case(('hfp', case), nontrivial, labels,
              sample={'hfp': {'hf': hex(hf_mask), 'ag': hex(ag_mask), 'ag_indicators': case['ag_indicators'],
@@ -1342,6 +1340,31 @@ def raw_commands(draw):
     return ['raw', f'AT+{name}=' + ','.join(values)]
 
 
+def raw_enumeration() -> list[str]:
+    lines = ['ATA', 'ATD123;', 'ATD>1;']
+    for name in sorted(RAW_TABLE):
+        valid = RAW_TABLE[name]
+        lines += [f'AT+{name}', f'AT+{name}?', f'AT+{name}=?']
+        for k in range(6):
+            values = [((valid[i] if i < len(valid) else '0') if valid is not None else '1') for i in range(k)]
+            lines.append(f'AT+{name}=' + ','.join(values))
+    return lines
+
+
+_ENUM_BASE = {'kind': 'hfp', 'rf': {'ch': 3, 'c': [1000, 7], 's': [1000, 7], 'l2cap_mtu': [2048, 2048]},
+              'dc': [], 'ds': [], 'hf_codecs': [1, 2], 'ag_codecs': [1, 2], 'calls': []}
+ENUM_CONFIGS = [
+    dict(_ENUM_BASE, hf_features=0, ag_features=0, ag_indicators=[['call', [0, 1], 0]], hf_ind_hf=[], hf_ind_ag=[],
+         chld=[]),
+    dict(_ENUM_BASE, hf_features=HF_ALL, ag_features=AG_ALL, ag_indicators=SUITE_INDICATORS, hf_ind_hf=[1, 2],
+         hf_ind_ag=[1, 2], chld=CHLD_OPS, rf={'ch': 5, 'c': [23, 1], 's': [23, 1], 'l2cap_mtu': [48, 48]}),
+    dict(_ENUM_BASE, hf_features=HF_ALL, ag_features=0, ag_indicators=SUITE_INDICATORS[:3], hf_ind_hf=[1],
+         hf_ind_ag=[2], chld=['1', '2'], dc=[1, 0, 5], ds=[0, 5]),
+    dict(_ENUM_BASE, hf_features=0, ag_features=AG_ALL, ag_indicators=SUITE_INDICATORS[:3], hf_ind_hf=[1],
+         hf_ind_ag=[2], chld=['1', '2'], rf={'ch': 30, 'c': [30, 2], 's': [64, 3], 'l2cap_mtu': [64, 48]}),
+]
+
+
 def hfp_cases(masks=None, with_commands=True):
     mask_st = masks if masks is not None else st.one_of(
         st.tuples(st.integers(0, HF_ALL), st.integers(0, AG_ALL)),
@@ -1431,7 +1454,19 @@ def run(ctx) -> None:
 
         ctx.hyp('hfp_fixed', fixed_case, hfp_cases(masks=st.just((0, 0)), with_commands=False),
                 max_examples=len(mine) * ctx.pick(1, 4))
-    ctx.hyp('hfp', lambda c: run_hfp_case(ctx, c), hfp_cases(), max_examples=ctx.n(260, 30000))
+    ctx.hyp('hfp', lambda c: run_hfp_case(ctx, c), hfp_cases(), max_examples=ctx.n(150, 28000))
+
+    # every raw arity / form variant of every table name, in sessions of 6 lines, on fixed configurations
+    lines = raw_enumeration()
+    ctx.extra['raw_lines_enumerated'] = len(lines)
+    sessions = [lines[i:i + 6] for i in range(0, len(lines), 6)]
+    configs = ENUM_CONFIGS[: ctx.pick(3, len(ENUM_CONFIGS))]
+    jobs = [(k, sess) for k in range(len(configs)) for sess in sessions]
+    for j, (k, sess) in enumerate(jobs):
+        if j % ctx.nshards != ctx.shard or ctx.out_of_time():
+            continue
+        case = dict(configs[k], carrier='le' if j % 2 else 'classic', commands=[['raw', l] for l in sess])
+        run_hfp_case(ctx, case)
 
     for label, n in (('carrier:classic', 10), ('carrier:le', 10), ('dlcs:1', 5), ('dlcs:2', 5), ('dlcs:3', 3),
                      ('dlcs:4', 3), ('beyond_initial_credits', 20), ('ledger_wrapped', 5), ('credit_only_frames', 10),
